@@ -4,6 +4,7 @@
 package gobeansdb
 
 import (
+	"crypto/sha1"
 	"fmt"
 	"os"
 	"path/filepath"
@@ -39,7 +40,34 @@ type vfSUT struct {
 		Merge              bool
 		State              store.GCState
 		Direct             bool
+		Ran                bool
+		PreFiles           map[int]vfFileState // data files of the bucket before the pass
+		PreTree            map[string]bool     // key -> had a tree entry before the pass
 	}
+	keysFn func() []string
+}
+
+type vfFileState struct {
+	Size int64
+	Sum  [20]byte
+}
+
+// dataFiles inventories the data files of one bucket directory.
+func vfDataFiles(home string) map[int]vfFileState {
+	m := map[int]vfFileState{}
+	paths, _ := filepath.Glob(filepath.Join(home, "*.data"))
+	for _, p := range paths {
+		id, err := strconv.Atoi(strings.TrimSuffix(filepath.Base(p), ".data"))
+		if err != nil {
+			continue
+		}
+		b, err := os.ReadFile(p)
+		if err != nil {
+			continue
+		}
+		m[id] = vfFileState{int64(len(b)), sha1.Sum(b)}
+	}
+	return m
 }
 
 func vfQuiet() {
@@ -94,7 +122,7 @@ func (s *vfSUT) Destroy() {
 }
 
 func (s *vfSUT) Set(key string, val []byte, flag uint32, rev int32) (bool, error) {
-	item := &mc.Item{Flag: int(flag), Exptime: int(rev), ReceiveTime: time.Now()}
+	item := &mc.Item{Flag: int(flag), Exptime: int(rev), ReceiveTime: time.Now().Add(-240 * time.Hour)} // old timestamps: files become GC-eligible at once (no_gc_days reads the wall clock)
 	if !item.Alloc(len(val)) {
 		return false, fmt.Errorf("alloc failed")
 	}
@@ -350,12 +378,12 @@ func vfFilesPattern(all, removed []string) string {
 	return fmt.Sprintf("hash+%s,-%s/s+%s,-%s/m+%s,-%s", cl(cnt["hash+"]), cl(cnt["hash-"]), cl(cnt["s+"]), cl(cnt["s-"]), cl(cnt["m+"]), cl(cnt["m-"]))
 }
 
-type vfRange struct{ bucket, b, e int }
+type vfRange struct{ bucket, b, e, argB, argE int }
 
 func (s *vfSUT) legalRanges() (rs []vfRange) {
 	for _, id := range store.VFReadyBuckets(s.hs) {
 		for _, r := range store.VFLegalRanges(s.hs, id) {
-			rs = append(rs, vfRange{id, r[0], r[1]})
+			rs = append(rs, vfRange{id, r[0], r[1], r[2], r[3]})
 		}
 	}
 	return
@@ -363,6 +391,7 @@ func (s *vfSUT) legalRanges() (rs []vfRange) {
 
 func (s *vfSUT) GC(sel uint64, merge bool) (info string, ran bool, err error) {
 	s.waitBG("before gc")
+	s.LastGC.Ran = false
 	rs := s.legalRanges()
 	if len(rs) == 0 {
 		return "no legal range", false, nil
@@ -371,14 +400,23 @@ func (s *vfSUT) GC(sel uint64, merge bool) (info string, ran bool, err error) {
 	direct := (sel/uint64(len(rs)))%2 == 0
 	before := store.VFDescribeChunks(s.hs, r.bucket)
 	s.LastGC.Bucket, s.LastGC.Begin, s.LastGC.End, s.LastGC.Merge, s.LastGC.Direct = r.bucket, r.b, r.e, merge, direct
+	s.LastGC.Ran = true
+	s.LastGC.PreFiles = vfDataFiles(store.VFBucketHome(s.hs, r.bucket))
+	s.LastGC.PreTree = map[string]bool{}
+	if s.keysFn != nil {
+		for _, k := range s.keysFn() {
+			_, _, _, _, found := store.VFTreeEntry(s.hs, k)
+			s.LastGC.PreTree[k] = found
+		}
+	}
 	if direct {
 		s.LastGC.State = store.VFGCDirect(s.hs, r.bucket, r.b, r.e, merge)
 	} else {
 		n := s.hooks.GCExits()
 		hl := store.VFGCHistoryLen(s.hs, r.bucket)
-		b, e, gerr := s.hs.GC(r.bucket, r.b, r.e, 0, merge, false)
+		b, e, gerr := s.hs.GC(r.bucket, r.argB, r.argE, 0, merge, false)
 		if gerr != nil {
-			return fmt.Sprintf("HStore.GC(%d,%d,%d) refused a range its own check accepted", r.bucket, r.b, r.e), true, gerr
+			return fmt.Sprintf("HStore.GC(%d,%d,%d) refused a range its own check accepted", r.bucket, r.argB, r.argE), true, gerr
 		}
 		if b != r.b || e != r.e {
 			return "", true, fmt.Errorf("HStore.GC resolved [%d,%d] to [%d,%d]", r.b, r.e, b, e)
